@@ -13,7 +13,7 @@ import (
 func TestC08(t *testing.T) {
 	r := newRun(t, "C08", "exploration")
 	defer r.Finish(t)
-	r.Rule = "race-detector build; scenarios for {v1 join, v2 join, unite} on the fake clock and on the real clock: (copy) the consumer keeps every slice, snapshots s[:cap(s)] at delivery, later overwrites whole capacities with poison while the producer keeps pushing and timeouts fire - un-poisoned snapshots must be intact, backing arrays pairwise disjoint and (unite) disjoint from every input slice incl. re-sent slice objects; (no-copy) the slice is re-read just before release-start and must equal its snapshot, Output() must be empty (non-blocking receive at a quiescent point) while held for 0..3 Timeouts; (v1) Stop/cancel injected between delivery and release with a busy input, snapshot must be intact after termination. Any race report counts. non-trivial = copy: >= 2 retained slices of which >= 1 poisoned before later deliveries; no-copy: >= 2 slices held; stop: injection landed before the release; distinct by scenario fingerprint"
+	r.Rule = "two parts: A = plain build, fake-clock families; B = race-detector build, real-clock families plus a small fake-clock block; scenarios for {v1 join, v2 join, unite} on the fake clock and on the real clock: (copy) the consumer keeps every slice, snapshots s[:cap(s)] at delivery, later overwrites whole capacities with poison while the producer keeps pushing and timeouts fire - un-poisoned snapshots must be intact, backing arrays pairwise disjoint and (unite) disjoint from every input slice incl. re-sent slice objects; (no-copy) the slice is re-read just before release-start and must equal its snapshot, Output() must be empty (non-blocking receive at a quiescent point) while held for 0..3 Timeouts; (v1) Stop/cancel injected between delivery and release with a busy input, snapshot must be intact after termination. Any race report counts. non-trivial = copy: >= 2 retained slices of which >= 1 poisoned before later deliveries; no-copy: >= 2 slices held; stop: injection landed before the release; distinct by scenario fingerprint"
 	r.Assumptions = []string{"testing/synctest fake clock of go1.26.8", "the Go race detector (reports only races on executed paths)", "reading s[len:cap] of a slice the consumer owns is allowed"}
 	r.Floor = 20
 	if replayJoin(t, r) {
@@ -49,10 +49,21 @@ func TestC08(t *testing.T) {
 			}
 		}
 	}
-	r.Parallel(t, "virtual-copy", r.Cfg.pick(3000, 60000), body(joinGen{Discs: discs, NoCopy: -1, Retain: true}))
-	r.Parallel(t, "virtual-nocopy", r.Cfg.pick(3000, 60000), body(joinGen{Discs: discs, NoCopy: 1, Retain: true}))
-	r.Parallel(t, "virtual-v1-stop-before-release", r.Cfg.pick(2000, 40000), body(joinGen{Discs: []string{"v1join"}, NoCopy: 1, Stop: 2}))
-	r.Parallel(t, "real-copy", r.Cfg.pick(250, 4000), body(joinGen{Discs: discs, NoCopy: -1, Retain: true, Real: true}))
-	r.Parallel(t, "real-nocopy", r.Cfg.pick(250, 4000), body(joinGen{Discs: discs, NoCopy: 1, Retain: true, Real: true}))
-	r.Parallel(t, "real-v1-stop-before-release", r.Cfg.pick(150, 3000), body(joinGen{Discs: []string{"v1join"}, NoCopy: 1, Stop: 2, Real: true}))
+	// Part A (plain build): the fake-clock families decide ownership with the snapshot /
+	// disjointness / probe oracles. Part B (race build): the real-clock families plus a small
+	// fake-clock block add the race detector. The race build is kept away from thousands of
+	// bubbles: on go1.26.8 the race runtime itself aborts now and then after very many
+	// synctest bubbles (ThreadSanitizer CHECK failure / SIGSEGV in runtime timer code).
+	part := r.Cfg.Part
+	if part == "" || part == "A" {
+		r.Parallel(t, "virtual-copy", r.Cfg.pick(4000, 80000), body(joinGen{Discs: discs, NoCopy: -1, Retain: true}))
+		r.Parallel(t, "virtual-nocopy", r.Cfg.pick(4000, 80000), body(joinGen{Discs: discs, NoCopy: 1, Retain: true}))
+		r.Parallel(t, "virtual-v1-stop-before-release", r.Cfg.pick(3000, 60000), body(joinGen{Discs: []string{"v1join"}, NoCopy: 1, Stop: 2}))
+	}
+	if part == "" || part == "B" {
+		r.Parallel(t, "race-virtual-mixed", r.Cfg.pick(240, 400), body(joinGen{Discs: discs, Retain: true, Stop: 1}))
+		r.Parallel(t, "race-real-copy", r.Cfg.pick(300, 5000), body(joinGen{Discs: discs, NoCopy: -1, Retain: true, Real: true}))
+		r.Parallel(t, "race-real-nocopy", r.Cfg.pick(300, 5000), body(joinGen{Discs: discs, NoCopy: 1, Retain: true, Real: true}))
+		r.Parallel(t, "race-real-v1-stop-before-release", r.Cfg.pick(200, 4000), body(joinGen{Discs: []string{"v1join"}, NoCopy: 1, Stop: 2, Real: true}))
+	}
 }
